@@ -7,7 +7,7 @@ PROPS = {}
 SOURCE_COMMITS = []   # hook commits in /repo (none: contracts live in /verif); fix: commits are listed in known_findings.txt
 # properties not (yet) claimed, with the reason that goes to MANIFEST.not_applicable
 UNCLAIMED = {p: "no check is registered for this property yet (contracts planned in DESIGN.md section 4 are not built); nothing is claimed"
-             for p in ("C05", "C11", "C15", "C19")}
+             for p in ( "C11", "C19")}
 
 
 def J(**kw):
@@ -502,3 +502,97 @@ PROPS["C18"] = dict(
     level_text="Frame conditions are proved per function under contract (assigns clauses enforced by DFCC on the real code, all inputs); the "
                "global 'no mutable shared state' fact is a mechanical inventory plus a const-compilation check; no schedules are explored.",
     level_note="Category 'other': sequential frame proofs + static inventory + a stated non-interference argument, not a concurrency analysis.")
+
+# ------------------------------------------------------------------ C15 flag clauses, legacy polygonToCells (C17)
+PROPS["C15"] = dict(
+    level="other",
+    explanation="flag and capacity clauses by contracts: validatePolygonFlags <=> (no bits above the low four, mode < 4); all four polyfill "
+                "entry points answer E_OPTION_INVALID (before anything is allocated) for invalid flags; polygonToCellsExperimental writes "
+                "out[i] only for i < size (loop contract, buffer of exactly size cells) and releases the iterator on the E_MEMORY_BOUNDS path",
+    trusted_base=["iterStepPolygonCompact's contract (the geometric polygon walk) is assumed"], assumptions=[],
+    not_decided=["what each containment mode includes/excludes, nesting FULL < CENTER < OVERLAPPING < OVERLAPPING_BBOX, and that "
+                 "maxPolygonToCellsSizeExperimental is an upper bound (floating-point geometry)"],
+    level_text="Unbounded proof of the flag/capacity/allocator clauses on the real functions; the mode semantics are outside the technique.",
+    level_note="Category 'other': partial.")
+J(name="c15.validatePolygonFlags", props=["C15", "C12", "C18"], harness="c17.c", entry="h_validatePolygonFlags", alloc=True,
+  enforce=["validatePolygonFlags"])
+J(name="c15.polygonToCells.badflags", props=["C15", "C12"], harness="c17.c", entry="h_polygonToCells_badflags", alloc=True,
+  enforce=["polygonToCells/polygonToCells_badflags"], unwind=2)
+J(name="c15.maxPolygonToCellsSize.badflags", props=["C15", "C12"], harness="c17.c", entry="h_maxPolygonToCellsSize_badflags", alloc=True,
+  enforce=["maxPolygonToCellsSize/maxPolygonToCellsSize_badflags"], unwind=2)
+PTC_PTRS = "bboxes == __CPROVER_loop_entry(bboxes) && numHexagons == h3v_n"
+PTC_SWAP = "((search == __CPROVER_loop_entry(search) && found == __CPROVER_loop_entry(found)) || " \
+           "(search == __CPROVER_loop_entry(found) && found == __CPROVER_loop_entry(search)))"
+PTC_LOC = ["i", "j", "loc", "loopCount", "currentSearchNum", "numSearchHexes", "numFoundHexes", "search", "found", "bboxes", "out",
+           "numHexagons", "ring", "edgeHexError", "hexCenter", "temp", "searchHex", "hex"]
+J(name="c17.polygonToCells", props=["C17", "C18"], harness="c17.c", entry="h_polygonToCells", alloc=True, timeout=1200,
+  enforce=["polygonToCells/polygonToCells_c17"], checks=["--no-standard-checks", "--pointer-check"],
+  replace=["validatePolygonFlags", "maxPolygonToCellsSize/maxPolygonToCellsSize_frame", "_getEdgeHexagons/_getEdgeHexagons_frame",
+           "bboxesFromGeoPolygon/bboxesFromGeoPolygon_frame", "gridDisk/gridDisk_k1_c17", "cellToLatLng/cellToLatLng_frame",
+           "pointInsidePolygon/pointInsidePolygon_frame"],
+  exclude=[(r"polygonToCells\.(pointer_dereference|pointer_arithmetic|array_bounds|assigns)\.\d+ .*(search|found|out|ring)\[",
+            "data-index obligations of the legacy fill (search[i], found[numFoundHexes], out[loc]): they rest on the floating-point size "
+            "estimate and are not theorems (upstream marks these paths 'reachable via fuzzer'); only the allocator discipline is decided here")],
+  loops=[dict(fn="polygonToCells", loop=0, locals=["i#0", "edgeHexError", "numSearchHexes", "search", "found", "geoPolygon"],
+              assigns="i_0, edgeHexError, numSearchHexes, __CPROVER_object_whole(search), __CPROVER_object_whole(found)",
+              inv="0 <= i_0 && i_0 <= geoPolygon->numHoles"),
+         dict(fn="polygonToCells", loop=1, locals=["i#1", "found", "numHexagons"],
+              assigns="i_1, __CPROVER_object_whole(found)", inv="0 <= i_1 && i_1 <= numHexagons"),
+         dict(fn="polygonToCells", loop=2, locals=["loc", "loopCount"], assigns="loc, loopCount", inv="1 == 1"),
+         dict(fn="polygonToCells", loop=3, locals=["j#0", "numFoundHexes", "out", "found"],
+              assigns="j_0, numFoundHexes, __CPROVER_object_whole(out), __CPROVER_object_whole(found)", inv="0 <= j_0 && j_0 <= 7"),
+         dict(fn="polygonToCells", loop=4, locals=["currentSearchNum", "i#2", "numFoundHexes", "out", "found"],
+              assigns="currentSearchNum, i_2, numFoundHexes, __CPROVER_object_whole(out), __CPROVER_object_whole(found), h3v_live, h3v_failed",
+              inv="h3v_live == h3v_live0 + 3 && !h3v_failed"),
+         dict(fn="polygonToCells", loop=5, locals=["j#1", "found"], assigns="j_1, __CPROVER_object_whole(found)", inv="0 <= j_1"),
+         dict(fn="polygonToCells", loop=6, locals=["search", "found", "numSearchHexes", "numFoundHexes", "out"],
+              assigns="search, found, numSearchHexes, numFoundHexes, __CPROVER_object_whole(out), __CPROVER_object_whole(search), "
+                      "__CPROVER_object_whole(found), h3v_live, h3v_failed",
+              inv="h3v_live == h3v_live0 + 3 && !h3v_failed && " + PTC_SWAP)])
+
+J(name="c09.upAp7Checked", props=["C09", "C12"], harness="c12.c", entry="h_upAp7Checked", enforce=["_upAp7Checked"], timeout=900)
+J(name="c09.upAp7rChecked", props=["C09", "C12"], harness="c12.c", entry="h_upAp7rChecked", enforce=["_upAp7rChecked"], timeout=900)
+J(name="c09.ijToIjk", props=["C09", "C12"], harness="c12.c", entry="h_ijToIjk", enforce=["ijToIjk"])
+J(name="c05.gridDiskDistancesInternal", props=["C05", "C12", "C18"], harness="c12.c", entry="h_gridDiskDistancesInternal", rec=True,
+  enforce=["_gridDiskDistancesInternal"], replace=["h3NeighborRotations/h3NeighborRotations_frame"], unwind=8,
+  loops=[dict(fn="_gridDiskDistancesInternal", loop=0, locals=["off", "maxIdx"], assigns="off", inv="0 <= off && off < maxIdx"),
+         dict(fn="_gridDiskDistancesInternal", loop=1, locals=["i", "out", "distances"],
+              assigns="i, __CPROVER_object_whole(out), __CPROVER_object_whole(distances)", inv="0 <= i && i <= 6", dec="6 - i")])
+J(name="c09.localIjkToCell.safe", props=["C09", "C12", "C18"], harness="c12.c", entry="h_localIjkToCell", unwind=17, timeout=1800,
+  enforce=["localIjkToCell/localIjkToCell_safe"], replace=["_upAp7Checked", "_upAp7rChecked"], tier="thorough")
+J(name="c09.cellToLocalIjk.safe", props=["C09", "C12", "C18"], harness="c12.c", entry="h_cellToLocalIjk", unwind=17, timeout=1800,
+  enforce=["cellToLocalIjk/cellToLocalIjk_safe"], tier="thorough")
+
+J(name="c13.childPosToCell.safe", props=["C13", "C12", "C01"], harness="c13.c", entry="h_childPosToCell", enforce=["childPosToCell/childPosToCell_safe"],
+  replace=["_ipow", "isPentagon"], unwind=17, timeout=900)
+
+# ------------------------------------------------------------------ C05
+PROPS["C05"] = dict(
+    level="other",
+    explanation="unbounded contract clauses: maxGridDiskSize == min(3k(k+1)+1, cells at res 15) / E_DOMAIN; gridRingUnsafe writes stay inside "
+                "6k slots for every k (loop contracts), negative k refused; the hash-set insertion of the safe disk probes only inside the "
+                "maxGridDiskSize slots (recursive contract); areNeighborCells error codes and 'a positive answer comes from the sibling "
+                "shortcut or from the 1-disk'; gridDisksUnsafe succeeds only if every per-cell disk succeeded. BOUNDED (never counted as "
+                "proved): the neighbour step on all valid cells of resolution <= 1 (quick) / <= 2 (thorough) is total, yields valid "
+                "same-resolution cells, E_PENTAGON exactly for (pentagon, K), is symmetric and injective in the direction.",
+    trusted_base=["h3NeighborRotations is a frame-only / uninterpreted contract in the unbounded jobs; its concrete behaviour is only checked bounded"],
+    not_decided=["gridDisk* return exactly the BFS ball with exact distances, without duplicates, for all k (hash-set contents over an unbounded array)",
+                 "gridDiskDistancesUnsafe / gridDiskUnsafe write bounds (ring bookkeeping needs a quadratic invariant that did not close)",
+                 "equivalence of areNeighborCells' sibling shortcut with the step relation beyond the bounded resolutions"],
+    assumptions=[],
+    level_text="Mixed: unbounded proofs for the code/size/bounds clauses listed, bounded symbolic runs (stated resolution bound, all cells of "
+               "those resolutions and all directions) for the neighbour relation; exact BFS equality is outside the technique.",
+    level_note="Category 'other'. Bounded jobs are labelled in the evidence (coverage.bounds) and are not part of 'discharged'.")
+J(name="c05.areNeighborCells", props=["C05", "C12", "C18"], harness="c05.c", entry="h_areNeighborCells", enforce=["areNeighborCells"],
+  replace=["gridDisk/gridDisk_ring_ghost", "isPentagon"], unwind=17, replay=dict(fn="areNeighborCells", args=["origin", "destination"]))
+J(name="c05.gridDisksUnsafe", props=["C05"], harness="c05.c", entry="h_gridDisksUnsafe", enforce=["gridDisksUnsafe"], tier="never",  # does not close yet (write-set creation for the segmented buffer fails): not registered
+  bound_note="segment size (maxGridDiskSize(k)) fixed to 7; the number of input cells is unbounded (loop contract)",
+  replace=["gridDiskUnsafe/gridDiskUnsafe_w", "maxGridDiskSize/maxGridDiskSize_ghost"],
+  loops=[dict(fn="gridDisksUnsafe", loop=0, locals=["i", "length", "h3Set", "k", "out", "segment", "segmentSize"],
+              assigns="i, segment, __CPROVER_object_whole(out)",
+              inv="0 <= i && (i <= length || length < 0) && segmentSize == h3v_n && k >= 0 && "
+                  "((0 <= h3v_g && h3v_g < i && h3Set[h3v_g] == h3v_w) ==> h3v_werr == 0)")])
+J(name="c05.neighbor.res1", props=["C05", "C10", "C01"], harness="c05.c", entry="h_neighbor_closure", defs=["MAXRES=1"], unwind=8, timeout=1500,
+  bound_note="all valid cells of resolution <= 1 (842+122 cells, symbolic) x all 6 directions; loops unwound with unwinding assertions")
+J(name="c05.neighbor.res2", props=["C05", "C10", "C01"], harness="c05.c", entry="h_neighbor_closure", defs=["MAXRES=2"], unwind=8, timeout=3000, tier="thorough",
+  bound_note="all valid cells of resolution <= 2 (symbolic) x all 6 directions; loops unwound with unwinding assertions")
